@@ -73,7 +73,7 @@ func c09Enumerate(tier string, emit func(*eng.Case)) {
 		c.HTML = strings.Replace(c.HTML, "<title>"+ora.DefaultTitle+"</title>", "", 1)
 		emit(c)
 	})
-	crossEmit(tier, "views", 1, emit)
+	crossEmit("C09", tier, "views", 1, emit)
 }
 
 // imageCandidates lists, in document order, the src and srcset candidate URLs of the img and
